@@ -7,7 +7,7 @@ CONSTANTS
   Sigs = {"TERM", "INT", "STOP", "CONT", "0"}
   JobsOpts = {"", "-l", "-p"}
   KillLNums = {0, 2, 9, 386, 399}
-  FgSlots = {2, 3}
+  FgSlots = {3}
   StartWith = "none"
 VIEW view
 INVARIANT TableConsistent
